@@ -129,6 +129,14 @@ func computeFieldToStruct(info *types.Info) map[*types.Var]*types.Struct {
 	for _, tv := range info.Types {
 		recordFieldToStruct(tv.Type, done, fieldToStruct)
 	}
+	// A call to a generic function only records its instantiated signature above.
+	// The origin fields of an unnamed struct in the signature of a generic function
+	// declared in another package are only reachable via the function object itself.
+	for _, obj := range info.Uses {
+		if fn, ok := obj.(*types.Func); ok && fn.Signature().TypeParams().Len() > 0 {
+			recordFieldToStruct(fn.Type(), done, fieldToStruct)
+		}
+	}
 	return fieldToStruct
 }
 
@@ -162,6 +170,13 @@ func recordFieldToStruct(typ types.Type, done map[*types.Named]bool, fieldToStru
 		recordFieldToStruct(typ.Elem(), done, fieldToStruct)
 	case *types.Alias:
 		recordFieldToStruct(typ.Rhs(), done, fieldToStruct)
+	case *types.Signature:
+		for param := range typ.Params().Variables() {
+			recordFieldToStruct(param.Type(), done, fieldToStruct)
+		}
+		for result := range typ.Results().Variables() {
+			recordFieldToStruct(result.Type(), done, fieldToStruct)
+		}
 	case *types.Named:
 		if done[typ] {
 			return
